@@ -38,6 +38,7 @@ type AirNode struct {
 	Password  []byte
 	M         *airgapped.Machine
 	Restarts  int
+	Dead      bool // the machine process was killed and has not been restarted yet
 	Panics    []string
 	// every result operation JSON that ever left the machine (C04 taint scan)
 	Outputs [][]byte
@@ -101,6 +102,7 @@ func (a *AirNode) close() {
 // of the given rounds exactly once each, as HowTo.md prescribes.
 func (a *AirNode) Restart(rounds []string) error {
 	a.close()
+	a.Dead = false
 	a.Restarts++
 	if err := a.Open(false); err != nil {
 		return err
